@@ -101,6 +101,16 @@ def task(states):
                 if str(spec["o"]) != "sum":
                     continue
                 s, nb = [int(v) for v in c["s"]], int(c["nb"])
+                if s == [1] and nb in (0, 1):
+                    # integer / boolean tensors (the mask constructors return bytes): every element is counted
+                    # once, also when there are more of them than the element type can hold
+                    for dt_, val in ((torch.uint8, 1), (torch.bool, True), (torch.int8, 100), (torch.int16, 30000)):
+                        xi = torch.full((2, 600), val, dtype=dt_)
+                        ri = U.sum_except_batch(xi, 1)
+                        want_i = 600 * int(val)
+                        if list(ri.shape) != [2] or [int(v) for v in ri.tolist()] != [want_i, want_i]:
+                            fail("sum", "sum_except_batch of a [2, 600] %s tensor filled with %s returns %s (dtype %s), each row sums to %d" % (str(dt_).split(".")[-1], val, ri.tolist(), ri.dtype, want_i))
+                            break
                 # powers of two: the sum identifies exactly which elements were added
                 N = math.prod(s)
                 if N == 0:
@@ -160,6 +170,16 @@ def task(states):
                     exp = torch.tensor([float(spec["r"]), -float(spec["r"])], dtype=dtype)
                     if not torch.allclose(r, exp, rtol=1e-5, atol=1e-6) or not bool(torch.isfinite(r).all()):
                         fail("value", "cbrt(%s) = %s, cube root is %s" % (x.tolist(), r.tolist(), exp.tolist()))
+                    # the same cube scaled by 1000^k (cube root scales by 10^k): magnitudes near the ends of
+                    # the precision's range, whose squares are not representable
+                    if cv != 0:
+                        for k in ((6, -8) if dtype == torch.float32 else (60, -70)):
+                            xs_ = torch.tensor([cv, -cv], dtype=torch.float64) * (1000.0 ** k)
+                            rs_ = U.cbrt(xs_.to(dtype)).double()
+                            es_ = torch.tensor([float(spec["r"]), -float(spec["r"])], dtype=torch.float64) * (10.0 ** k)
+                            if not bool(torch.isfinite(rs_).all()) or not torch.allclose(rs_, es_, rtol=1e-4 if dtype == torch.float32 else 1e-10, atol=0):
+                                fail("value", "cbrt(%s) in %s = %s, cube root is %s" % (xs_.tolist(), str(dtype).split(".")[-1], rs_.tolist(), es_.tolist()))
+                                break
             elif f == "logabsdet":
                 m = torch.tensor([[float(v) for v in row] for row in c["m"]], dtype=torch.float64)
                 snap = [(m.clone(), m._version)]
